@@ -352,6 +352,156 @@ def _stored_names(fn) -> Set[str]:
     return out
 
 
+def _collapse_result_copies(fn: ast.FunctionDef) -> None:
+    """Inlining a helper that returns one of its locals leaves `ret__k = None; ...; ret__k = v__k; x = ret__k`: three names for one
+    object.  A machine-made result variable (`ret__k`) that is assigned a plain local exactly once, after a dead `= None`, is that local;
+    and a name assigned exactly once from such a variable (`x = ret__k`) is it too.  Only copies of *names* are collapsed (aliasing is
+    preserved by construction), only for single assignments, only in straight-line position of one block."""
+    def stores(name):
+        return [n for n in ast.walk(fn) if isinstance(n, ast.Name) and n.id == name and isinstance(n.ctx, (ast.Store, ast.Del))]
+
+    def blocks(node):
+        for n in ast.walk(node):
+            for f in ("body", "orelse", "finalbody"):
+                b = getattr(n, f, None)
+                if isinstance(b, list) and b and isinstance(b[0], ast.stmt):
+                    yield b
+            if isinstance(n, ast.Try):
+                for h in n.handlers:
+                    yield h.body
+    params = {a.arg for a in fn.args.args + fn.args.kwonlyargs + fn.args.posonlyargs}
+
+    def loads(name):
+        return [n for n in ast.walk(fn) if isinstance(n, ast.Name) and n.id == name and isinstance(n.ctx, ast.Load)]
+
+    def is_none_init(p, x):
+        return isinstance(p, ast.Assign) and len(p.targets) == 1 and isinstance(p.targets[0], ast.Name) and p.targets[0].id == x \
+            and isinstance(p.value, ast.Constant) and p.value.value is None
+    # (a) `a, b = ret__k` where every other assignment of ret__k is a tuple display of that arity (or the dead `= None`): the unpacking
+    #     moves to the assignments
+    for blk in list(blocks(fn)):
+        for i, st in enumerate(list(blk)):
+            if not (isinstance(st, ast.Assign) and len(st.targets) == 1 and isinstance(st.targets[0], ast.Tuple) and isinstance(st.value, ast.Name)
+                    and st.value.id.startswith("ret__") and all(isinstance(t, ast.Name) for t in st.targets[0].elts)):
+                continue
+            x = st.value.id
+            if len(loads(x)) != 1:
+                continue
+            n = len(st.targets[0].elts)
+            defs = [(b, j, q) for b in blocks(fn) for j, q in enumerate(b)
+                    if isinstance(q, ast.Assign) and len(q.targets) == 1 and isinstance(q.targets[0], ast.Name) and q.targets[0].id == x]
+            real = [(b, j, q) for b, j, q in defs if not is_none_init(q, x)]
+            if len(defs) != len(stores(x)) or not real or not all(isinstance(q.value, ast.Tuple) and len(q.value.elts) == n
+                                                                  and not any(isinstance(e, ast.Starred) for e in q.value.elts) for _b, _j, q in real):
+                continue
+            names = [t.id for t in st.targets[0].elts]
+            for b, j, q in sorted(real, key=lambda t: -t[1]):
+                new = [ast.copy_location(ast.Assign(targets=[ast.Name(id=nm, ctx=ast.Store())], value=e, lineno=q.lineno), q)
+                       for nm, e in zip(names, q.value.elts)]
+                k = next(k for k, z in enumerate(b) if z is q)
+                b[k:k + 1] = new
+            for b, j, q in defs:
+                if is_none_init(q, x) and q in b:
+                    b.remove(q)
+                    if not b:
+                        b.append(ast.Pass())
+            if st in blk:
+                blk.remove(st)
+                if not blk:
+                    blk.append(ast.Pass())
+    # (b) `ret__k = E` used exactly once, by the very next statement of the same block: that statement with E in its place
+    for blk in list(blocks(fn)):
+        i = 0
+        while i + 1 < len(blk):
+            st, nxt = blk[i], blk[i + 1]
+            if isinstance(st, ast.Assign) and len(st.targets) == 1 and isinstance(st.targets[0], ast.Name) and st.targets[0].id.startswith("ret__") \
+                    and not isinstance(st.value, ast.Name) and isinstance(nxt, (ast.Assign, ast.Expr, ast.Return, ast.AugAssign)):
+                x = st.targets[0].id
+                ls = loads(x)
+                here = [n for n in ast.walk(nxt) if isinstance(n, ast.Name) and n.id == x and isinstance(n.ctx, ast.Load)]
+                xs = stores(x)
+                inits = [q for q in blk[:i] if is_none_init(q, x)]
+                if len(ls) == 1 and len(here) == 1 and len(xs) == 1 + len(inits) and len(inits) <= 1:
+                    blk[i + 1] = _SubstName({x: st.value}).visit(nxt)
+                    del blk[i]
+                    for q in inits:
+                        blk.remove(q)
+                        i -= 1
+                    continue
+            i += 1
+    changed = True
+    rounds = 0
+    while changed and rounds < 20:
+        changed = False
+        rounds += 1
+        for blk in blocks(fn):
+            for i, st in enumerate(blk):
+                if not (isinstance(st, ast.Assign) and len(st.targets) == 1 and isinstance(st.targets[0], ast.Name) and isinstance(st.value, ast.Name)):
+                    continue
+                x, y = st.targets[0].id, st.value.id
+                if x == y or x in params:
+                    continue
+                xs = stores(x)
+                machine = x.startswith("ret__")
+                dead_init = None
+                if machine and len(xs) == 2:
+                    # `ret__k = None` earlier in the same block, not read in between
+                    for j in range(i):
+                        p = blk[j]
+                        if isinstance(p, ast.Assign) and len(p.targets) == 1 and isinstance(p.targets[0], ast.Name) and p.targets[0].id == x \
+                                and isinstance(p.value, ast.Constant) and p.value.value is None \
+                                and not any(isinstance(n, ast.Name) and n.id == x and isinstance(n.ctx, ast.Load) for q in blk[j + 1:i] for n in ast.walk(q)):
+                            dead_init = j
+                    if dead_init is None:
+                        continue
+                elif len(xs) != 1:
+                    continue
+                if not (machine or y.startswith("ret__") or "__" in y):
+                    continue        # only copies produced by inlining
+                # y is not stored after this statement (in this block or anywhere textually later), and this block is not in a loop that stores y
+                later = [n for q in blk[i + 1:] for n in ast.walk(q) if isinstance(n, ast.Name) and n.id == y and isinstance(n.ctx, (ast.Store, ast.Del))]
+                if later:
+                    continue
+                in_loop_storing_y = any(isinstance(l, (ast.For, ast.While)) and any(b is blk or any(q is st for q in ast.walk(l)) for b in (l.body,))
+                                        and any(isinstance(n, ast.Name) and n.id == y and isinstance(n.ctx, (ast.Store, ast.Del)) for n in ast.walk(l))
+                                        for l in ast.walk(fn))
+                if in_loop_storing_y:
+                    continue
+                # x is read only after this statement: within the rest of this block or in statements that follow the block's owner
+                for n in ast.walk(fn):
+                    if isinstance(n, ast.Name) and n.id == x and isinstance(n.ctx, ast.Load):
+                        n.id = y
+                del blk[i]
+                if dead_init is not None:
+                    del blk[dead_init]
+                if not blk:
+                    blk.append(ast.Pass())
+                changed = True
+                break
+            if changed:
+                break
+
+
+class _ApplyCallable(ast.NodeTransformer):
+    """calls of the local name `g` become calls of the callable it stands for"""
+
+    def __init__(self, g, arm):
+        self.g, self.arm = g, arm
+
+    def visit_Call(self, node):
+        self.generic_visit(node)
+        if isinstance(node.func, ast.Name) and node.func.id == self.g:
+            kind = self.arm[0]
+            if kind == "ref":
+                return ast.copy_location(ast.Call(func=copy.deepcopy(self.arm[1]), args=node.args, keywords=[]), node)
+            if kind == "partial":
+                return ast.copy_location(ast.Call(func=copy.deepcopy(self.arm[1]), args=[copy.deepcopy(a) for a in self.arm[2]] + node.args, keywords=[]), node)
+            params, body = self.arm[1], self.arm[2]
+            if len(params) == len(node.args):
+                return ast.copy_location(_SubstName(dict(zip(params, node.args))).visit(copy.deepcopy(body)), node)
+        return node
+
+
 class Normalizer:
     """Rewrites one function.  `resolve(call, cls) -> (qualname, FunctionDef, ClassInfo|None, bind_self: bool) | None`."""
 
@@ -373,6 +523,8 @@ class Normalizer:
     def run(self, fn: ast.FunctionDef) -> ast.FunctionDef:
         new = copy.deepcopy(fn)
         _spread_tuple_stars(new)
+        self._assigned_names = {n.id for n in ast.walk(new) if isinstance(n, ast.Name) and isinstance(n.ctx, (ast.Store, ast.Del))} | \
+            {a.arg for a in new.args.args + new.args.kwonlyargs + new.args.posonlyargs}
         # nested one-expression functions / lambdas bound to a local name: called through that name they are the expression
         self._local_fns = {}
         for st_ in new.body:
@@ -384,6 +536,8 @@ class Normalizer:
                     and not st_.value.args.vararg and not st_.value.args.kwarg:
                 self._local_fns[st_.targets[0].id] = ([a.arg for a in st_.value.args.args], st_.value.body)
         new.body = self._block(new.body, self.cls, self.depth, top=True)
+        if self.inlined:
+            _collapse_result_copies(new)
         recs = getattr(self, "records", None)
         if recs:
             _scalar_replace_records(new, recs)
@@ -474,6 +628,7 @@ class Normalizer:
                     stmts[i:i + 2] = [new_if]
                     continue
             i += 1
+        stmts = self._distribute_callable_aliases(stmts)
         # k = 0; while k < n: BODY; k += 1   is   for k in range(n): BODY   (n not written in BODY, no continue)
         i = 0
         while i + 1 < len(stmts):
@@ -643,6 +798,125 @@ class Normalizer:
             ast.fix_missing_locations(x)
         return out
 
+    def _distribute_callable_aliases(self, stmts):
+        stmts = list(stmts)
+        # f = x.meth (a bound method of a local or of self.<field>, kept in a local) ... f(args): the calls are x.meth(args)
+        i = 0
+        while i < len(stmts):
+            a = stmts[i]
+            if isinstance(a, ast.Assign) and len(a.targets) == 1 and isinstance(a.targets[0], ast.Name) and isinstance(a.value, ast.Attribute) \
+                    and isinstance(a.value.ctx, ast.Load):
+                g = a.targets[0].id
+                root = a.value
+                while isinstance(root, ast.Attribute):
+                    root = root.value
+                rest = stmts[i + 1:]
+                uses = [n for x in rest for n in ast.walk(x) if isinstance(n, ast.Name) and n.id == g]
+                called = [n for x in rest for n in ast.walk(x) if isinstance(n, ast.Call) and isinstance(n.func, ast.Name) and n.func.id == g]
+                if isinstance(root, ast.Name) and uses and len(uses) == len(called):
+                    stored = {n.id for x in rest for n in ast.walk(x) if isinstance(n, ast.Name) and isinstance(n.ctx, (ast.Store, ast.Del))}
+                    # attributes on the path (self.deptasks.update): not re-bound in between
+                    attr_stores = [n for x in rest for n in ast.walk(x) if isinstance(n, ast.Attribute) and isinstance(n.ctx, (ast.Store, ast.Del))
+                                   and n.attr in {t.attr for t in ast.walk(a.value) if isinstance(t, ast.Attribute)}]
+                    if root.id not in stored and g not in stored and not attr_stores:
+                        stmts[i + 1:] = [_ApplyCallable(g, ("ref", a.value)).visit(x) for x in rest]
+                        del stmts[i]
+                        continue
+            i += 1
+        # if C: f = X  else: f = Y / def f(..): return E / f = lambda ..: E / f = partial(G, a)   ...   r = f(args)
+        # is, for a test C whose names nobody writes in between:   ... if C: r = X(args) else: r = <E with the arguments>
+        i = 0
+        while i < len(stmts):
+            st0 = stmts[i]
+            alias = self._callable_arms(st0)
+            if alias is not None:
+                g, test, arms = alias
+                rest = stmts[i + 1:]
+                tnames = {n.id for n in ast.walk(test) if isinstance(n, ast.Name)}
+                stored = {n.id for x in rest for n in ast.walk(x) if isinstance(n, ast.Name) and isinstance(n.ctx, (ast.Store, ast.Del))}
+                uses = [n for x in rest for n in ast.walk(x) if isinstance(n, ast.Name) and n.id == g]
+                called = [n for x in rest for n in ast.walk(x) if isinstance(n, ast.Call) and isinstance(n.func, ast.Name) and n.func.id == g
+                          and not n.keywords and not any(isinstance(a_, ast.Starred) for a_ in n.args)
+                          and all(isinstance(a_, (ast.Name, ast.Attribute, ast.Subscript, ast.Constant)) for a_ in n.args)]
+                pure_test = not any(isinstance(n, (ast.Call, ast.Await, ast.NamedExpr)) for n in ast.walk(test))
+                if uses and len(uses) == len(called) and not (tnames & stored) and g not in stored and pure_test and len(rest) <= 12:
+                    new_rest = []
+                    okk = True
+                    for x in rest:
+                        if not any(isinstance(n, ast.Name) and n.id == g for n in ast.walk(x)):
+                            new_rest.append(x)
+                            continue
+                        variants = []
+                        for arm in arms:
+                            y = _ApplyCallable(g, arm).visit(copy.deepcopy(x))
+                            if any(isinstance(n, ast.Name) and n.id == g for n in ast.walk(y)):
+                                okk = False
+                            variants.append(y)
+                        new_if = ast.copy_location(ast.If(test=copy.deepcopy(test), body=[variants[0]], orelse=[variants[1]]), x)
+                        ast.fix_missing_locations(new_if)
+                        new_rest.append(new_if)
+                    if okk:
+                        stmts[i:] = new_rest
+                        continue
+            i += 1
+        return stmts
+
+    @staticmethod
+    def _callable_arms(st):
+        """(name, test, [arm_true, arm_false]) when `st` is `if C: f = <callable> else: f = <callable>` with each arm one of: an attribute
+        or name (a bound method), a one-expression `def f(params): return E`, a lambda, `functools.partial(G, a, ..)`"""
+        if not (isinstance(st, ast.If) and len(st.body) == 1 and len(st.orelse) == 1):
+            return None
+        arms, names = [], set()
+        for b in (st.body[0], st.orelse[0]):
+            if isinstance(b, ast.Assign) and len(b.targets) == 1 and isinstance(b.targets[0], ast.Name):
+                names.add(b.targets[0].id)
+                v = b.value
+                if isinstance(v, (ast.Attribute, ast.Name)):
+                    arms.append(("ref", v))
+                elif isinstance(v, ast.Lambda) and not v.args.vararg and not v.args.kwarg and not v.args.defaults and not v.args.kwonlyargs:
+                    arms.append(("fn", [a.arg for a in v.args.args], v.body))
+                elif isinstance(v, ast.Call) and (A.dotted(v.func) or "") in ("partial", "functools.partial") and v.args and not v.keywords \
+                        and all(isinstance(a, (ast.Name, ast.Attribute, ast.Subscript, ast.Constant)) for a in v.args):
+                    arms.append(("partial", v.args[0], v.args[1:]))
+                else:
+                    return None
+            elif isinstance(b, ast.FunctionDef) and not b.decorator_list and not b.args.vararg and not b.args.kwarg and not b.args.defaults \
+                    and not b.args.kwonlyargs:
+                body = A.strip_docstring(b.body)
+                if len(body) == 1 and isinstance(body[0], ast.Return) and body[0].value is not None:
+                    names.add(b.name)
+                    arms.append(("fn", [a.arg for a in b.args.args], body[0].value))
+                else:
+                    return None
+            else:
+                return None
+        if len(names) != 1 or all(a[0] == "ref" and isinstance(a[1], ast.Name) for a in arms):
+            return None
+        return names.pop(), st.test, arms
+
+    def _display_of(self, e, binds, zipped: bool = True):
+        """the tuple display an iterable expression denotes, when the text fixes it: a display, a local bound once to one, a module-level
+        constant tuple of constants that the function does not assign, `zip(d1, d2)` of two such of equal length (as a display of rows)"""
+        if isinstance(e, (ast.Tuple, ast.List)) and not any(isinstance(x, ast.Starred) for x in e.elts):
+            return e
+        if isinstance(e, ast.Name):
+            if e.id in binds and isinstance(binds[e.id], (ast.Tuple, ast.List)):
+                return copy.deepcopy(binds[e.id])
+            mc = getattr(self, "module_consts", None) or {}
+            v = mc.get(e.id)
+            if isinstance(v, (ast.Tuple, ast.List)) and 0 < len(v.elts) <= 6 and all(isinstance(x, ast.Constant) for x in v.elts) \
+                    and e.id not in getattr(self, "_assigned_names", ()):
+                return copy.deepcopy(v)
+            return None
+        if zipped and isinstance(e, ast.Call) and isinstance(e.func, ast.Name) and e.func.id == "zip" and len(e.args) == 2 and not e.keywords:
+            a, b = (self._display_of(x, binds, False) for x in e.args)
+            if a is not None and b is not None and len(a.elts) == len(b.elts) and 0 < len(a.elts) <= 4 and \
+                    all(isinstance(x, (ast.Name, ast.Attribute, ast.Constant, ast.Subscript)) for x in a.elts + b.elts):
+                rows = ast.Tuple(elts=[ast.Tuple(elts=[copy.deepcopy(x), copy.deepcopy(y)], ctx=ast.Load()) for x, y in zip(a.elts, b.elts)], ctx=ast.Load())
+                return ast.fix_missing_locations(ast.copy_location(rows, e))
+        return None
+
     def _stmt(self, st, cls, depth) -> List[ast.stmt]:
         pre: List[ast.stmt] = []
         # `it = chain(a, b)` / `it = (x, y)` ... `for v in it:` loops over that expression (remembered until `it` is stored again)
@@ -652,6 +926,12 @@ class Normalizer:
         if isinstance(st, ast.For) and isinstance(st.iter, ast.Name) and st.iter.id in binds:
             st = copy.copy(st)
             st.iter = copy.deepcopy(binds[st.iter.id])
+        if isinstance(st, ast.For):
+            # a module-level constant tuple of constants (a table of names), and `zip` of two displays of equal length: the display itself
+            disp = self._display_of(st.iter, binds)
+            if disp is not None and disp is not st.iter:
+                st = copy.copy(st)
+                st.iter = disp
         for n in ast.walk(st) if not isinstance(st, (ast.For, ast.While, ast.If, ast.With, ast.Try)) else []:
             if isinstance(n, ast.Name) and isinstance(n.ctx, (ast.Store, ast.Del)):
                 binds.pop(n.id, None)
@@ -1158,6 +1438,8 @@ class Normalizer:
             return None
         try:
             body = A.strip_docstring(copy.deepcopy(fn.body))
+            if _contains(ast.Module(body=body, type_ignores=[]), (ast.FunctionDef, ast.Lambda)):
+                body = self._distribute_callable_aliases(body)      # a conditionally chosen local callable is dissolved at its call sites
             if _contains(ast.Module(body=body, type_ignores=[]),
                          (ast.FunctionDef, ast.AsyncFunctionDef, ast.ClassDef, ast.Lambda, ast.Global, ast.Nonlocal,
                           ast.Yield, ast.YieldFrom, ast.Await)):
@@ -1214,6 +1496,20 @@ class Normalizer:
             sub = _SubstName(consts)
             body = [sub.visit(s) for s in body]
             binds = [(pn, v) for pn, v in binds if mapping.get(pn, pn) not in consts]
+        # a parameter bound to a one-expression lambda that the helper only calls: the calls are that expression
+        lam = {}
+        for pn, v in binds:
+            tgt_ = mapping.get(pn, pn)
+            if isinstance(v, ast.Lambda) and pn not in rebound and not v.args.vararg and not v.args.kwarg and not v.args.defaults and not v.args.kwonlyargs:
+                uses = [n for x in body for n in ast.walk(x) if isinstance(n, ast.Name) and n.id == tgt_]
+                called = [n for x in body for n in ast.walk(x) if isinstance(n, ast.Call) and isinstance(n.func, ast.Name) and n.func.id == tgt_]
+                if uses and len(uses) == len(called):
+                    lam[tgt_] = ([a.arg for a in v.args.args], v.body)
+        if lam:
+            if getattr(self, "_local_fns", None) is None:
+                self._local_fns = {}
+            self._local_fns.update(lam)
+            binds = [(pn, v) for pn, v in binds if mapping.get(pn, pn) not in lam]
         marker = ast.Expr(value=ast.Call(func=ast.Name(id=MARKER, ctx=ast.Load()),
                                          args=[ast.Constant(value=qual)], keywords=[]))
         ast.copy_location(marker, at_stmt)
